@@ -46,6 +46,43 @@ ACCEPTED_RMW = {
 }
 
 
+def _regeneration(ctx, r3):
+    """Generating the body control of a search() select twice from the same element (Survey.xml() may be called any
+    number of times): the second evaluation must succeed and build the same control.  Evaluated abstractly with the
+    element state left behind by the first generation."""
+    from ..interp import NodeVal, Obj, Raised
+    from ..xmlmodel import node_hook
+    from .c07 import _mk
+    repo = ctx.repo
+    scls = repo.cls("pyxform.survey:Survey")
+    mq = repo.cls("pyxform.question:MultipleChoiceQuestion")
+    ocls = repo.cls("pyxform.question:Option")
+    icls = repo.cls("pyxform.question:Itemset")
+    bx = mq.methods["build_xml"]
+    for app in ("search('fruits')", "minimal"):
+        opts = tuple(_mk(ctx, ocls, f"o{i}", label=f"L{i}", media=None) for i in range(2))
+        iset = Obj(icls, {"name": "lst", "options": opts, "requires_itext": False, "used_by_search": False}, name="itemset")
+        el = _mk(ctx, mq, "s1", control={"appearance": app}, itemset="lst", choices=iset, list_name="lst", type="select one", bind={"type": "string"}, label="S",
+                 choice_filter=None, parameters=None)
+        runs = []
+        for rnd in (1, 2, 3):
+            CTRL = NodeVal("select1")
+            hooks = {"fnname:node": node_hook, "fnname:_build_xml": lambda i, a, k, n, C=CTRL: C,
+                     "fnname:insert_xpaths": lambda i, a, k, n: "S[" + str([x for x in a if isinstance(x, str)][0]) + "]"}
+            sv = Obj(scls, {"choices": {"lst": iset}}, name="survey")
+            hooks["fnname:_redirect_is_search_itext"] = None
+            hooks.pop("fnname:_redirect_is_search_itext")
+            it = ctx.interp("C14.R3", hooks=hooks)
+            it.reset([])
+            try:
+                it.call_function(bx, [el], {"survey": sv}, None, bx.node)
+                runs.append(repr([(c.tag, sorted((k, str(v)) for k, v in c.attrs.items()), [g.tag for g in c.children if isinstance(g, NodeVal)]) for c in CTRL.children if isinstance(c, NodeVal)]))
+            except Raised as e:
+                runs.append(f"raises {e.exc_name}{e.exc_args}")
+        r3.check(len(set(runs)) == 1 and not runs[0].startswith("raises"), f"regeneration[select, appearance={app!r}]",
+                 "three successive generations of the same element build the same control", bx.loc(), why_fail=f"{runs}"[:300])
+
+
 def run(ctx):
     repo = ctx.repo
     it0 = ctx.consts.interp
@@ -229,6 +266,7 @@ def run(ctx):
                     r3.fail(key, f"in-place {m}() on survey/element state during generation is not idempotent", fi.loc(node))
             elif wkind == "del":
                 r3.fail(key, "deletion from survey/element state during generation", fi.loc(node))
+    _regeneration(ctx, r3)
     rules.append(r3)
 
     # ------------------------------------------------------------------ R4
